@@ -63,8 +63,8 @@ def R(n):
 
 
 MEMS = [("rcx", None, None, None, ""), ("rax", None, None, None, ""), ("rsp", "rcx", 2, 0x10, ""),
-        ("r9", None, None, -0x80, "")]
-MEMCLS = {0: "plain", 1: "accbase", 2: "sib", 3: "extbase"}
+        ("r9", None, None, -0x80, ""), (None, "rcx", 4, 0x10, ""), (None, None, None, 0x1000, ""), ("eax", "r9d", 8, None, "")]
+MEMCLS = {0: "plain", 1: "accbase", 2: "sib", 3: "extbase", 4: "nobase", 5: "disponly", 6: "addr32"}
 
 
 def dests(w, with_mem=True, with_high=True):
